@@ -96,7 +96,7 @@ impl Prop for C06 {
                 out.add("gaps_changed", changed as u64);
                 if fy != fx {
                     let fallback = o0.has_fallback() || o1.has_fallback();
-                    let min = minimise(&base, &l2, &cfg, &fx, &mut out);
+                    let min = if fallback { l2.clone() } else { minimise(&base, &l2, &cfg, &fx, &mut out) };
                     let culprit_idx: Vec<usize> = (0..base.gaps.len()).filter(|&i| base.gaps[i] != min.gaps[i]).collect();
                     let is_literal = |t: &str| t.starts_with('\'') || t.starts_with('#') || t.chars().next().is_some_and(|c| c.is_ascii_digit() || c == '$' || c == '%');
                     let literal_bracket = !culprit_idx.is_empty()
